@@ -24,13 +24,19 @@ Definition opt_eqb {X} (eqb : X -> X -> bool) (a b : option X) : bool :=
 Definition feqb : float -> float -> bool := PrimFloat.eqb.
 
 (* ---- value level ---- *)
-(* results of successive RLParameter.mutate() calls, bit for bit *)
+(* results of successive RLParam(eter).mutate() calls, bit for bit *)
 Definition check_value_f (p : param float) (v0 : float) (us rs : list float) : bool :=
   list_eqb feqb (mutate_seq FOps p v0 us) rs.
 
 (* the same on the rational instance, for cases whose float arithmetic the harness has verified to be exact *)
 Definition check_value_q (p : param Q) (v0 : Q) (us rs : list Q) : bool :=
   list_eqb Qeq_bool (mutate_seq QOps p v0 us) rs.
+
+(* independent points (current value, draw, observed result) on one configuration *)
+Definition check_points_f (p : param float) (pts : list (float * float * float)) : bool :=
+  forallb (fun t => let '(v, u, r) := t in feqb (mutate_value FOps p u v) r) pts.
+Definition check_points_q (p : param Q) (pts : list (Q * Q * Q)) : bool :=
+  forallb (fun t => let '(v, u, r) := t in Qeq_bool (mutate_value QOps p u v) r) pts.
 
 (* branch taken by the model at each call (0 scaled / 1 clipped low / 2 clipped high), for coverage *)
 Fixpoint branches_f (p : param float) (v : float) (us : list float) : list nat :=
